@@ -99,14 +99,8 @@ class FormSplitter(MultiFunction):
         """
         indices = multiindex.indices()
         if isinstance(child, ListTensor) and all(isinstance(i, FixedIndex) for i in indices):
-            if len(indices) == 1:
-                return child[indices[0]]
-            elif len(indices) == len(child.ufl_operands) and all(
-                k == int(i) for k, i in enumerate(indices)
-            ):
-                return child
-            else:
-                return ListTensor(*(child[i] for i in indices))
+            # ListTensor.__getitem__ resolves fixed indices one list level at a time
+            return child[multiindex]
         return self.expr(o, child, multiindex)
 
     def multi_index(self, obj):
